@@ -45,7 +45,7 @@ THEOREMS = [
 LEAN_MODULES = ["PorepyVerif.C20.Props"]
 AUDIT = "PorepyVerif/C20/Audit.lean"
 DRIVER = "PorepyVerif/C20/Driver.lean"
-N = {"quick": 120, "thorough": 8000}
+N = {"quick": 120, "thorough": 6000}
 TOL = 1e-10          # oracle tolerance (relative to the size of the coordinates)
 CTOL = 1e-9          # correspondence tolerance (class T)
 
